@@ -54,7 +54,7 @@ def to_real_aliases(d, ns, prog: GProg, aliases: Optional[list]):
 
 
 def evaluate(acc, c: dict, d, ns, prog: GProg, R, X, T, *, debug_on: bool = False, pre: Optional[Dict[int, int]] = None,
-             check_id: str = "C12") -> str:
+             check_id: str = "C12", info: Optional[dict] = None) -> str:
     """Run executor(R, X, T)() on `d` and compare with the reference. Returns a short classification."""
     ids = prog.ids()
     N = len(ids)
@@ -85,6 +85,9 @@ def evaluate(acc, c: dict, d, ns, prog: GProg, R, X, T, *, debug_on: bool = Fals
     res = H.run_controlled(op)
     acc.evaluations += 1
     entered = [e[1] for e in res.trace if e[0] == "enter"]
+    if info is not None:
+        info["entered"] = {e[1]: e[2] for e in res.trace if e[0] == "enter"}
+        info["outcome"] = res.outcome
     if want == "either":
         return "either"
     if want is None:
